@@ -273,7 +273,19 @@ func runC03(c *Ctx) {
 				kinds += string("iqpby"[r.Intn(5)])
 			}
 			var buf []byte
-			switch r.Intn(3) {
+			switch r.Intn(4) {
+			case 3: // a length prefix at a boundary of the 32-bit range (signed / unsigned readings differ), 0-12 bytes behind it
+				kinds = gen.Pick(r, []string{"y", "yi", "yy", "iy", "yiq", "iyb"})
+				for _, ch := range kinds {
+					if ch == 'y' {
+						buf = binary.BigEndian.AppendUint32(buf, gen.Pick(r, []uint32{0x80000000, 0xffffffff, 0x7fffffff, 0x80000001, 0xfffffffc, 0xfffffff8, 0xffff0000, 0x100, 3}))
+						buf = append(buf, r.Bytes(r.Intn(5))...)
+					} else {
+						buf = append(buf, r.Bytes(gen.Pick(r, []int{4, 4, 8, 3}))...)
+					}
+				}
+				buf = append(buf, r.Bytes(r.Intn(9))...)
+				c.Count("raw.lenboundary")
 			case 0:
 				buf = r.Bytes(r.Intn(40))
 			case 1: // valid then truncated
